@@ -484,3 +484,100 @@ def replay_known(name: str, witness) -> bool:
     if q.startswith("tv_"):
         return False
     return _native_naming(witness)
+
+
+# ------------------------------------------------------------------------------------------------ the encrypted half, over a stand-in cipher
+# `cryptography` is not installed.  The repository's own encrypt / decrypt (wire format, salt / nonce handling, key derivation call, the
+# archive's use of them) are executed over an ENVIRONMENT STUB with the AESGCM / PBKDF2HMAC interfaces: a keyed stream + a keyed tag built
+# from hashlib / hmac, which has the two properties the statement relies on (decrypt(encrypt(x)) == x under the same key; a different key
+# fails authentication).  What AES-GCM itself guarantees is outside.
+import hashlib as _hashlib  # noqa: E402
+import hmac as _hmac  # noqa: E402
+
+from llama_agents.control_plane.backup import encryption as _enc  # noqa: E402
+
+
+class _StubInvalidTag(Exception):
+    pass
+
+
+class _StubKDF:
+    def __init__(self, algorithm=None, length=32, salt=b"", iterations=1) -> None:
+        self._length, self._salt = length, salt
+
+    def derive(self, password: bytes) -> bytes:
+        return _hashlib.pbkdf2_hmac("sha256", password, self._salt, 1, self._length)    # 1 iteration: the cost parameter is not a property
+
+
+class _StubAEAD:
+    def __init__(self, key: bytes) -> None:
+        self._key = key
+
+    def _stream(self, nonce: bytes, n: int) -> bytes:
+        out, ctr = b"", 0
+        while len(out) < n:
+            out += _hmac.new(self._key, nonce + ctr.to_bytes(4, "big"), "sha256").digest()
+            ctr += 1
+        return out[:n]
+
+    def encrypt(self, nonce: bytes, data: bytes, aad) -> bytes:
+        ct = bytes(a ^ b for a, b in zip(data, self._stream(nonce, len(data))))
+        return ct + _hmac.new(self._key, b"tag" + nonce + ct, "sha256").digest()[:16]
+
+    def decrypt(self, nonce: bytes, data: bytes, aad) -> bytes:
+        ct, tag = data[:-16], data[-16:]
+        if not _hmac.compare_digest(tag, _hmac.new(self._key, b"tag" + nonce + ct, "sha256").digest()[:16]):
+            raise _StubInvalidTag("authentication failed")
+        return bytes(a ^ b for a, b in zip(ct, self._stream(nonce, len(ct))))
+
+
+class _hashes_stub:
+    @staticmethod
+    def SHA256():
+        return "sha256"
+
+
+_PWS = ["correct horse", "Tr0ub4dor&3", ""]
+
+
+@obligation(quick=120, thorough=300, partitions_quick=[f"r1 == {a}" for a in (0, 1)],
+            what="encrypted archive (the repository's encrypt/decrypt and archive code over a stand-in cipher with the AESGCM / PBKDF2HMAC "
+                 "interfaces): created with password p; a sequence of two reads in ONE process, each with p or with another password — every "
+                 "read with p returns exactly the secrets, every read with another password fails and hands out no secret, whatever was "
+                 "read before",
+            bounds={"reads": 2, "passwords": "2 non-empty passwords; the read password equal / different", "secrets": "1..2 deployments"})
+def ob_encrypted_reads(r1: int, r2: int, two: bool, pwi: int) -> bool:
+    """
+    pre: 0 <= r1 <= 1 and 0 <= r2 <= 1 and 0 <= pwi <= 1
+    post: _
+    """
+    r1, r2, pwi = cint(r1, 0, 1), cint(r2, 0, 1), cint(pwi, 0, 1)
+    two = True if two else False
+    with untraced():
+        saved = (_enc.AESGCM, _enc.PBKDF2HMAC, _enc.hashes)
+        _enc.AESGCM, _enc.PBKDF2HMAC, _enc.hashes = _StubAEAD, _StubKDF, _hashes_stub
+        try:
+            pw, other = _PWS[pwi], _PWS[1 - pwi]
+            names = ["alpha", "beta"] if two else ["alpha"]
+            deployments = [_cr(n, {"displayName": n}, False) for n in names]
+            secrets = {n: {"stringData": {"TOKEN": "s3cret-" + n}} for n in names}
+            data = create_backup_archive(deployments=deployments, secrets=_copy(secrets), namespace="ns", timestamp="2025-01-01T00:00:00Z",
+                                         encryption_password=pw, generations=None)
+            if any(("s3cret-" + n).encode() in data for n in names):
+                return False          # the archive itself must not carry the secret in clear
+            for which in (r1, r2):
+                use = pw if which == 0 else other
+                try:
+                    contents = read_backup_archive(data, encryption_password=use)
+                except Exception:  # noqa: BLE001
+                    if which == 0:
+                        return False  # the right password must open it
+                    continue
+                if which == 1:
+                    return False      # a different password opened it
+                got = {e.name: e.secret for e in contents.entries}
+                if not _same(got, secrets):
+                    return False
+            return True
+        finally:
+            _enc.AESGCM, _enc.PBKDF2HMAC, _enc.hashes = saved
